@@ -42,7 +42,7 @@ func init() {
 			"(c) no panic, no MsgJobFailed/MsgMergeFailed; (d) on quit: nil error, FinalStoreMap(hand-off) == REF-LINEAR, every output of the requested range delivered by the walker equals the reference, every file left decodes to the reference content; (e) bounded progress: commands and messages exhausted without quit, or only walker polls left with an unchanged state for 3 rounds = deadlock; more than 400+60*units steps = inconclusive. " +
 			"non-trivial = schedule with >=3 jobs or merges in which at least one message was delivered out of creation order; distinct by hash of the pick sequence",
 		Assumptions: []string{
-			"the only values altered in messages are the pacing fields MsgFileNotPresent.NextWait / MsgDownloadSegment.Wait (set to 0); asynchronous file writes are awaited between steps (Stages.WaitAsyncWork), so the controlled mode does not explore the in-flight-write race (the -race mode with the real loop does)",
+			"the only values altered in messages are the pacing fields MsgFileNotPresent.NextWait / MsgDownloadSegment.Wait (shrunk to 1 ns, never to 0: zero means 'no wait requested' to the scheduler); asynchronous file writes are awaited between steps (Stages.WaitAsyncWork), so the controlled mode does not explore the in-flight-write race (the -race mode with the real loop does)",
 			"commands run one at a time on the harness goroutine: overlapping executions are represented by executing several commands before delivering their messages",
 			"requests of the recorded known-finding shape C05/stage-index-shift are generated on purpose in a dedicated sub-family and must hit exactly that signature",
 		},
@@ -208,7 +208,9 @@ func (e *c05Env) run(budget int) (quit bool, quitErr error, verdict string) {
 		case loop.QuitMsg:
 			return true, m.VerifErr(), ""
 		case orchexecout.MsgFileNotPresent:
-			m.NextWait = 0
+			if m.NextWait > 0 {
+				m.NextWait = 1 // 1ns: pacing removed, but still "a retry with a wait" for the code that looks at it
+			}
 			msg = m
 			fp := e.sched.Stages.VerifFingerprint()
 			onlyPolls := true
@@ -229,7 +231,9 @@ func (e *c05Env) run(budget int) (quit bool, quitErr error, verdict string) {
 			}
 			lastFP = fp
 		case orchexecout.MsgDownloadSegment:
-			m.Wait = 0
+			if m.Wait > 1 {
+				m.Wait = 1
+			}
 			msg = m
 		case work.MsgJobFailed:
 			e.viol("C05/job-failed/"+fw.NormalizeMsg(m.Error.Error()), fmt.Sprintf("job for unit (segment %d, stage %d) failed: %v", m.Unit.Segment, m.Unit.Stage, m.Error))
